@@ -167,7 +167,7 @@ def generate(seed: int, tier: str = "quick") -> dict:
         elif k < 0.72:
             add(b, "sq.liquidate", "sq", {"vault": v})
         elif k < 0.77:
-            add(b, "sq.read_twap", "sq", {"token": rp.choice(["WETH", "WETH", "OSQTH"])})
+            add(b, "sq.read_twap", "sq", {"token": rp.choice(["WETH", "WETH", "OSQTH"]), "back": rp.choice([0, 0, 1, 3, 8, 20])})
         elif k < 0.82:
             add(b, "sq.read_collat_ratio", "sq", {"vault": v})
         elif k < 0.86:
@@ -653,9 +653,11 @@ class VaultOracle(Oracle):
         if not ok:
             sim.violate("c14.twap", f"get_twap_price:{call['token']}:raised", exc=outcome.get("exc"), msg=outcome.get("msg"))
             return
-        i = pre["i"]
+        i = pre["i"] - int(call.get("back", 0))
         want = self.ref.twap_eth(i) if call["token"] == "WETH" else self.ref.twap_osq(i)
         sim.count("probe:twap_read")
+        if call.get("back"):
+            sim.count("probe:twap_read_as_of_an_earlier_bar")
         if len(set(self.ref.eth[j] for j in self.ref.window(i))) > 1:
             sim.count("probe:twap_read_window_not_flat")
         if not _close(outcome["result"], want, BAND):
